@@ -190,6 +190,10 @@ fn case_strategy(tier: Tier, brace_ok: bool) -> BoxedStrategy<Case> {
                 if (optbits >> i) & 1 == 1 && !matches!(f.ty, FT::Enum(_)) {
                     f.opt = true;
                 }
+                // a nullable union may name null first ("null | int"); every other field of a case does
+                if f.opt && i % 2 == 1 && !matches!(f.ty, FT::Enum(_)) {
+                    f.alias = format!("null | {}", f.alias);
+                }
             }
             if extra_time >= 2 {
                 td.fields.push(FieldDef { name: "tn".into(), ty: FT::Datetime, opt: true, alias: "datetime".into() });
